@@ -741,4 +741,13 @@ theorem at?_leaf_mem : ∀ (p : List Nat) (s : Schema), s.at? p = some .leaf →
       simpa using this
 
 
+
+theorem kid_facts (s c : Schema) (i : Nat) (hk : s.kids[i]? = some c) : s.isLeaf = false ∧ i < s.arity := by
+  refine ⟨?_, ?_⟩
+  · cases hl : s.isLeaf with
+    | false => rfl
+    | true => rw [kids_none_of_leaf s hl] at hk; cases hk
+  · unfold Schema.arity; exact (List.getElem?_eq_some_iff.mp hk).1
+
+
 end MiniconfVerif
